@@ -21,7 +21,7 @@ RULE = (
     "reached vertex); distinct = distinct case value."
 )
 ASSUMPTIONS = [
-    "links have both ends assigned; filters are pure functions of identity",
+    "links have both ends assigned, except that with a universe given a link may have an unassigned (None) end - None is never a member; filters are pure functions of identity",
     "under LNK_UNKNOWN_ERROR with an ff_via that rejects every unknown-class link met, raising and not raising are both accepted",
     "start is a member of the universe (the documented precondition)",
 ]
@@ -161,6 +161,8 @@ def _check_on(S, case):
                 o = b if a == x else a
                 if S.mem is not None and o not in S.mem:
                     nonmem = True
+                if o is None:
+                    classes.add("link-with-unassigned-end")
                 if S.f is not None and not S.f(l, o):
                     prune = True
         # a cycle among reached vertices: more followed (v,w) pairs inside R than a tree has
